@@ -27,7 +27,19 @@ class ReverseBrownian(brownian_base.BaseBrownian):
     def __call__(self, ta, tb=None, return_U=False, return_A=False):
         # Whether or not to negate the statistics depends on the return value of the adjoint SDE. Currently, the adjoint
         # returns negated drift and diffusion, so we don't negate here.
-        return self.base_brownian(-tb, -ta, return_U=return_U, return_A=return_A)
+        out = self.base_brownian(-tb, -ta, return_U=return_U, return_A=return_A)
+        # The increment returned is that of the path t -> -W(-t). The space-time Levy area and the Levy area of that
+        # path are minus those of W over [-tb, -ta]; in terms of U this means U -> (tb - ta) * W - U.
+        if return_U and return_A:
+            W, U, A = out
+            return W, (tb - ta) * W - U, -A
+        if return_U:
+            W, U = out
+            return W, (tb - ta) * W - U
+        if return_A:
+            W, A = out
+            return W, -A
+        return out
 
     def __repr__(self):
         return f"{self.__class__.__name__}(base_brownian={self.base_brownian})"
